@@ -1290,7 +1290,7 @@ def check(run: lib.Run, audit: dict) -> int:
             elif v["disagree"]:
                 run.disagreements.append(v)
         # 2. enumeration + random
-        run_cases(run, tally, all_cases(run), tmpdir)
+        run_cases(run, tally, all_cases(run, scale=run.boost), tmpdir)
         if run.disagreements and not run.spec_failures and not violations:
             run_cases(run, tally, all_cases(run, scale=4), tmpdir)   # correspondence broke: widen the search for a failing input
         # 3. verdicts
